@@ -177,11 +177,20 @@ func c16Readiness(e *Env, cfg world.Config) {
 	defer cancel()
 	done := false
 	simrt.Go("proxy.Run", func() { proxy.Run(ctx, args); done = true })
-	w.RunUntil(func() bool { return done || len(w.N.Listeners()) >= 2 }, 5*time.Minute)
+	servingN := func() int {
+		k := 0
+		for _, l := range w.N.Listeners() {
+			if l.Serving() {
+				k++
+			}
+		}
+		return k
+	}
+	w.RunUntil(func() bool { return done || servingN() >= 2 }, 5*time.Minute)
 	if w.Stopped() {
 		return
 	}
-	if done || len(w.N.Listeners()) < 2 {
+	if done || servingN() < 2 {
 		e.Res.Infra = "proxy.Run with --health-check did not start both listeners"
 		return
 	}
@@ -298,6 +307,12 @@ func c16(e *Env) {
 					n := w.AddNode(true)
 					n.Joined = true
 					addedAt[n] = w.Now()
+					if c.Choose("add-preceded-by-schema-event", 3) == 2 {
+						// (events of other kinds share the control connection)
+						for k := 1 + c.Choose("add-noise", 4); k > 0; k-- {
+							w.EmitEvent(&message.SchemaChangeEvent{ChangeType: primitive.SchemaChangeTypeCreated, Target: primitive.SchemaChangeTargetKeyspace, Keyspace: "ks_c16"})
+						}
+					}
 					w.EmitEvent(&message.TopologyChangeEvent{ChangeType: primitive.TopologyChangeTypeNewNode, Address: &primitive.Inet{Addr: n.IP, Port: 9042}})
 					w.Stat("fault.node-add")
 				}
@@ -323,8 +338,23 @@ func c16(e *Env) {
 						continue
 					}
 					n.InCluster = false
+					// a node that has left the ring stops its native transport: it is gone, or at
+					// least accepts nothing new while the connections it still has linger (one that
+					// kept answering new connections would present itself as a member to a proxy
+					// that moved its control connection there)
 					if n == controlNode() || c.Choose("rmcrash", 2) == 0 {
 						n.Crash()
+					} else {
+						n.RefuseNew = true
+					}
+					if c.Choose("rm-announced-down-first", 2) == 1 {
+						// a node that leaves is reported DOWN and REMOVED back to back, possibly amid
+						// events of other kinds (they share the control connection)
+						for k := c.Choose("rm-noise", 4); k > 0; k-- {
+							w.EmitEvent(&message.SchemaChangeEvent{ChangeType: primitive.SchemaChangeTypeUpdated, Target: primitive.SchemaChangeTargetKeyspace, Keyspace: "ks_c16"})
+						}
+						w.EmitEvent(&message.StatusChangeEvent{ChangeType: primitive.StatusChangeTypeDown, Address: &primitive.Inet{Addr: n.IP, Port: 9042}})
+						e.Res.Stats["probe.c16.down_then_removed"]++
 					}
 					w.EmitEvent(&message.TopologyChangeEvent{ChangeType: primitive.TopologyChangeTypeRemovedNode, Address: &primitive.Inet{Addr: n.IP, Port: 9042}})
 					w.Stat("fault.node-remove")
@@ -571,19 +601,40 @@ func c16(e *Env) {
 		}
 		w.RunUntil(func() bool { return false }, time.Duration(c.Choose("stalledfor", 60))*time.Second)
 		n.Unstall()
-		ok = w.RunUntil(func() bool {
+		// (a connection the proxy gave up on during the stall may still sit at the node, which then
+		// reads its STARTUP: a replaced connection is one that requests are routed over)
+		pooled := func() bool {
 			for _, bc := range n.LiveConns() {
 				if bc.Started && !bc.Control {
 					return true
 				}
 			}
 			return false
-		}, bound)
+		}
+		resumed := w.Now()
+		ok = false
+		for !ok && !w.Stopped() && w.Now()-resumed < bound {
+			if !w.RunUntil(pooled, bound-(w.Now()-resumed)) {
+				break
+			}
+			hit, answered := probeRound(w, cl, 2*len(w.Nodes)+2)
+			if w.Stopped() {
+				return
+			}
+			if !answered {
+				w.Violate("c16-healing", "probe-not-answered", "a probe request got no reply after the node resumed")
+				return
+			}
+			ok = hit[n.Name] > 0
+			if !ok {
+				w.RunUntil(func() bool { return false }, 2*time.Second)
+			}
+		}
 		if w.Stopped() {
 			return
 		}
 		if !ok {
-			w.Violate("c16-healing", "pool-connection-not-replaced", fmt.Sprintf("%v after %s resumed the proxy has no pooled connection to it", bound, n))
+			w.Violate("c16-healing", "pool-connection-not-replaced", fmt.Sprintf("%v after %s resumed the proxy has no pooled connection to it that requests are routed over", bound, n))
 			return
 		}
 		e.Res.Stats["oracle.c16.stalls_checked"]++
